@@ -11,7 +11,7 @@ from mc.ref import linalg as L
 RULE = ("all 27 table entries; per gate: matrix computable symbolically and numerically, dimension 2^num_qubits, degree certificate of the entries as "
         "trigonometric polynomials in the half angles (walked from the expressions the real factory returns), then U^dagger U - I, the Hermitian flag, "
         "dagger and the additive group law on a tensor grid with 2*deg(residual)+1 points per parameter - which decides the identity for ALL real "
-        "parameters; fixed relations exactly. non-trivial = parametric gate with a certificate / a fixed relation between two different gates")
+        "parameters; fixed relations exactly; history: all gates built in one process at exact int / negative / float / sympy values with every matrix held until the end. non-trivial = parametric gate with a certificate / a fixed relation between two different gates")
 ASSUMPTIONS = ["sympy evaluates its own expressions at numbers correctly (lambdify/evalf)", "cut-off: a trigonometric polynomial of degree <= D vanishing on 2D+1 equispaced points vanishes identically",
                "grid residuals <= 1e-10 imply sup-norm residual <= 1e-10 * prod(2D_i+1)"]
 BOUNDS = {"quick": {"grid": "certificate-sized tensor grid", "U3_numeric_path_points": 27}, "thorough": {"grid": "certificate-sized tensor grid", "U3_numeric_path_points": "all grid points"}}
@@ -183,7 +183,52 @@ def flags_case(case):
     return {"ok": True, "nt": False, "out": "flag%s" % g.is_hermitian}
 
 
-FUNCS = {"gates": gate_case, "group_law": group_case, "relations": relation_case, "table": flags_case}
+def held_case(case):
+    """{'order': 'fwd'|'rev'}: ONE process builds every gate of the table at many exact parameter values (ints, negative ints, floats, sympy numbers),
+    keeps every gate object and every returned matrix, and only afterwards checks them: each gate reports the parameters it was asked for, each held
+    matrix is unchanged since it was returned and equals the symbolic matrix at its parameters, and the group law holds between HELD matrices"""
+    import math
+    vals1 = [-2, -1, 0, 1, 2, 3, -1.0, -2.0, 0.5, sympy.Integer(-1), sympy.Integer(-2), sympy.Rational(1, 2), math.pi, -0.5]
+    valsk = [-2, -1, 0.5]
+    table = TABLE if case["order"] == "fwd" else TABLE[::-1]
+    held, funcs = [], {}
+    ops = 0
+    for name, k, nq, _ in table:
+        syms = sympy.symbols("theta phi lam", real=True)[:k]
+        if k:
+            funcs[name] = sympy.lambdify(syms, get_gate(name, syms).matrix, "numpy")
+        pts = [()] if k == 0 else [(v,) for v in vals1] if k == 1 else list(itertools.product(valsk, repeat=k))
+        if case["order"] == "rev":
+            pts = pts[::-1]
+        for pt in pts:
+            g = get_gate(name, pt)
+            ops += 1
+            if g.name != name or len(g.params) != k or any(abs(complex(a) - complex(b)) > 0 for a, b in zip(g.params, pt)):
+                return {"ok": False, "msg": "%s%s was asked for, the gate returned reports %s%s" % (name, pt, g.name, tuple(g.params)), "sig": "held:params", "ops": ops}
+            M = g.matrix
+            held.append((name, pt, g, M, sympy.ImmutableMatrix(M)))
+    for name, pt, g, M, snap in held:
+        ops += 1
+        if sympy.ImmutableMatrix(M) != snap:
+            return {"ok": False, "msg": "the matrix returned for %s%s changed while other gate matrices were computed" % (name, pt), "expected": str(snap), "observed": str(M), "sig": "held:aliased", "ops": ops}
+        if pt:
+            exp = np.array(funcs[name](*[complex(x).real for x in pt]), dtype=complex)
+            if np.abs(N(M) - exp).max() > 1e-9 or np.abs(N(g.matrix) - exp).max() > 1e-9:
+                return {"ok": False, "msg": "%s%s: held matrix / re-read matrix is not the gate's matrix at these parameters" % (name, pt), "sig": "held:value", "ops": ops}
+    by = {}
+    for name, pt, g, M, snap in held:
+        if name in GROUP:
+            by.setdefault(name, []).append((complex(pt[0]).real, M))
+    for name, lst in by.items():
+        for (a, Ma), (b, Mb) in itertools.product(lst, repeat=2):
+            ops += 1
+            R = N(Ma) @ N(Mb) - np.array(funcs[name](a + b), dtype=complex)
+            if np.abs(R).max() > 1e-9:
+                return {"ok": False, "msg": "%s(%s) %s(%s) != %s(a+b) for matrices held at the same time" % (name, a, name, b, name), "sig": "held:group", "ops": ops}
+    return {"ok": True, "nt": True, "ops": ops, "out": "held"}
+
+
+FUNCS = {"held": held_case, "gates": gate_case, "group_law": group_case, "relations": relation_case, "table": flags_case}
 
 
 def run(run):
@@ -193,7 +238,9 @@ def run(run):
             Section("group_law", [{"gate": n} for n in GROUP], group_case, horizon=600, chunk=1, desc="U(a)U(b)=U(a+b), U(0)=I on the 2-D certificate grid"),
             Section("relations", [{"rel": r} for r in ("S*S=Z", "T*T=S", "SX*SX=X", "H*Z*H=X", "CNOT=diag(I,X)", "CNOT=X.controlled(1)", "CZ=diag(I,Z)", "CZ=Z.controlled(1)",
                                                         "X,Y,Z textbook", "SWAP")], relation_case, desc="fixed relations to 1e-12"),
-            Section("table", [{"entry": list(e)} for e in TABLE], flags_case, desc="gate table entries exist with the listed arity")]
+            Section("table", [{"entry": list(e)} for e in TABLE], flags_case, desc="gate table entries exist with the listed arity"),
+            Section("held", [{"order": "fwd"}, {"order": "rev"}], held_case, horizon=900, chunk=1, desc="one process: all gates at exact int/negative/float/sympy parameter values, all matrices held, then "
+                    "checked (reported parameters, no aliasing between returned matrices, value, group law between held matrices)")]
     run.run_sections(secs)
     cov = [s for s in run.sections.values()]
     cert = sum(s["extra"].get("certified", 0) for s in cov)
